@@ -71,3 +71,74 @@ MANIFEST_TEXT = {
                     "Present event of the real holder is checked against SelH (exact, type-consistent selections) or the weaker closure clause (arbitrary JSON).",
             "note": _NOTE, "technique": "TLA+ bounded model checking (TLC) + trace validation of Present events"},
 }
+
+
+def ADV(name):
+    return {"module": "MC_adv", "quick": f"MC_{name}_quick.cfg", "thorough": f"MC_{name}.cfg", "timeout": {"quick": 300, "thorough": 3000}, "scnkey": name}
+
+
+_A = ["TLC + CommunityModules Json", "harness codec (base64url, own JSON reader, SHA-256)", "ledger (EUF-CMA) abstraction of signatures", "wall clock"]
+PLANS.update({
+    "C02": P(
+        "model_checking",
+        ["verify.lenient.sig", "verify.lenient.parse", "verify.calls", "verify.accept", "scn.expect.reject", "scn.expect.claims", "scn.model.agrees"],
+        [ADV("sig")],
+        [{"driver": "replay", "scn": "MC_adv", "args": {"n": 500, "matrix": 0}}, {"driver": "attack", "args": {"n": 16, "family": "jwt", "stride": 30}}],
+        [{"driver": "replay", "scn": "MC_adv", "args": {"n": 6000, "matrix": 0}}, {"driver": "attack", "args": {"n": 24, "family": "jwt", "stride": 1}}],
+        required={"verify.lenient.sig": 500, "verify.accept": 20, "verify.calls": 20, "scn.model.agrees": 300},
+        rule="cases = behaviours of MC_sig (alter / splice / strip / alg-rewrite / re-sign the issuer-signed JWT, resolvers constant and keyed by iss) replayed in both "
+             "serializations + every single-character substitution / deletion / insertion at sampled (thorough: all) positions of real tokens, truncations, part swaps; "
+             "distinct = distinct mutants that reached the verifier",
+        assumptions=_A,
+    ),
+    "C03": P(
+        "model_checking",
+        ["verify.claims", "verify.genuine", "verify.lenient.unpack", "scn.expect.reject", "scn.expect.claims", "scn.model.agrees"],
+        [ADV("disc")],
+        [{"driver": "replay", "scn": "MC_adv", "args": {"n": 500, "matrix": 0}}, {"driver": "attack", "args": {"n": 12, "family": "disc", "stride": 2}}],
+        [{"driver": "replay", "scn": "MC_adv", "args": {"n": 6000, "matrix": 0}}, {"driver": "attack", "args": {"n": 300, "family": "disc", "stride": 1}}],
+        required={"verify.claims": 300, "verify.genuine": 300, "scn.model.agrees": 300},
+        rule="cases = behaviours of MC_disc (add genuine / altered / forged / foreign / garbage disclosures, drop, duplicate, swap; <= 2 steps) replayed in both "
+             "serializations + random subsets / permutations / duplicates and nine re-serialisations of every genuine disclosure; distinct = distinct disclosure lists verified",
+        assumptions=_A,
+    ),
+    "C04": P(
+        "model_checking",
+        ["verify.lenient.kb", "verify.lenient.args", "verify.accept", "present.kb", "present.kb.none", "scn.expect.reject", "scn.expect.claims", "scn.model.agrees"],
+        [ADV("kb")],
+        [{"driver": "replay", "scn": "MC_adv", "args": {"n": 600, "matrix": 0}}, {"driver": "attack", "args": {"n": 12, "family": "kb", "stride": 25}}],
+        [{"driver": "replay", "scn": "MC_adv", "args": {"n": 6000, "matrix": 0}}, {"driver": "attack", "args": {"n": 24, "family": "kb", "stride": 1}}],
+        required={"verify.lenient.kb": 300, "verify.lenient.args": 50, "verify.accept": 20, "present.kb": 100},
+        rule="cases = behaviours of MC_kb (move / strip / alter / re-sign / forge the KB-JWT, change the disclosure list afterwards, six (aud, nonce) expectations) replayed "
+             "in both serializations + every single-character edit of real KB-JWTs and disclosure lists changed after the KB-JWT was made; distinct = distinct attacked presentations",
+        assumptions=_A,
+    ),
+    "C10": P(
+        "model_checking",
+        ["pair.format", "pair.present", "pair.present.st", "holder.new"],
+        [ADV("kb")],
+        [{"driver": "replay", "scn": "MC_adv", "args": {"n": 400, "matrix": 0}}, {"driver": "attack", "args": {"n": 12, "family": "all", "stride": 40}},
+         {"driver": "rich", "args": {"n": 300, "depth": 4, "arbsel": 0.2, "xfmt": 1}}],
+        [{"driver": "replay", "scn": "MC_adv", "args": {"n": 6000, "matrix": 0}}, {"driver": "attack", "args": {"n": 60, "family": "all", "stride": 3}},
+         {"driver": "rich", "args": {"n": 10000, "depth": 7, "arbsel": 0.2, "xfmt": 1}}],
+        required={"pair.format": 1000, "pair.present": 150, "holder.new": 300},
+        rule="cases = pairs (Compact, JSON) of the same abstract message: every Verify of the replayed MC_kb behaviours and of the tampering families (honest and tampered), "
+             "JSON spelled with kb_jwt absent / null / an unknown member; holders built from both forms of random SD-JWTs presenting the same selection; distinct = distinct pairs",
+        assumptions=_A,
+    ),
+})
+MANIFEST_TEXT.update({
+    "C02": {"text": "Signatures are a ledger of signed texts; TLC exhausts MC_sig (two issuers, three key families, alter/splice/strip/alg-rewrite/re-sign, resolvers constant and keyed by iss) with "
+                    "Inv_C02 (accepted => the JWT text is one Issue produced under the resolver's key). Behaviours are replayed against the real verifier and, with the single-character "
+                    "mutation space of real tokens, validated by TLC: the specified verifier (SpecVerify) rejecting at stage sig/parse obliges the implementation to reject.",
+            "note": _NOTE, "technique": "TLA+ Dolev-Yao model checked by TLC + scenario replay + trace validation of mutation families"},
+    "C03": {"text": "TLC exhausts MC_disc: every sequence of <= 2 adversary steps over a pool of genuine, altered, forged, foreign and garbage disclosures, with Inv_C03 (claims = Unpack over the "
+                    "genuine presented disclosures). Replay + text-level re-serialisations are validated by TLC against Unpack on real SHA-256 digests (verify.claims, verify.genuine).",
+            "note": _NOTE, "technique": "TLA+ bounded model checking (TLC) + scenario replay + trace validation"},
+    "C04": {"text": "TLC exhausts MC_kb (KB-JWT moved, stripped, altered, re-signed by adversary / issuer keys of three families, forged, disclosure list changed afterwards; six (aud, nonce) "
+                    "expectations) with Inv_C04 / Inv_C04args; behaviours are replayed in both serializations and validated together with single-character edits of real KB-JWTs.",
+            "note": _NOTE, "technique": "TLA+ bounded model checking (TLC) + scenario replay + trace validation"},
+    "C10": {"text": "The specification's messages are format independent; the conformance side verifies every honest and tampered message of the C02-C04 families in both serializations "
+                    "(own transcoder; kb_jwt absent / null / extra member) and requires equal decision and claims (pair.format), and equal selections from holders built from both forms (pair.present).",
+            "note": _NOTE, "technique": "TLA+ trace validation of paired executions (format-independent specification)"},
+})
